@@ -370,8 +370,9 @@ func expandSchemaRef(target Schema, parentRefs []string, resolver *schemaLoader,
 		return nil, err
 	}
 
-	if t == nil {
-		// guard for when continuing on error
+	if t == nil || err != nil {
+		// guard for when continuing on error: the unresolved $ref is left as it is
+		// (a target that is not a schema object may leave a partially decoded, non-nil schema behind)
 		return &target, nil
 	}
 
